@@ -5,9 +5,9 @@ from coregen import gen_case, nontrivial as _nt, c_env, c_prog, c_obs
 from common import cbool
 
 ID = 'C05'
-GEN_MODULES = ['Ident', 'Classes']
+GEN_MODULES = ['Ident', 'Classes', 'Flags']
 MODEL_TARGETS = ['coq/C05/Run.vo']
-PROOF_TARGETS = ['coq/C05/Proofs.vo']
+PROOF_TARGETS = ['coq/C05/Proofs.vo', 'coq/C05/Keys.vo', 'coq/C05/KeysProofs.vo', 'build/Gen/Flags.vo']
 PROPS_FILE = 'coq/Props/C05.v'
 RUN_MODULE = 'QCE.C05.Run'
 COQ_HEADER = 'From Gen Require Import Ident Classes.\nFrom QCE Require Import Core.Model Core.Run.'
@@ -74,7 +74,8 @@ def gen_cases(rng, tier):
         if c['derive'] == ['mods', 'flatten'] and c11.block_with_sub_repeated(c['prog']):
             c['derive'] = ['mods']
         c['obs'] = ['copy']
-        c['spec_only'] = True
+        # the model's flatten is validated (C11) for implicitly sequenced programs only: elsewhere the copy is judged by the specification alone
+        c['spec_only'] = 'flatten' in c['derive'] and coregen.has_rel(c['prog'])
         cases.append(c)
     return cases
 
@@ -94,15 +95,15 @@ def derived_fixed():
     return [{'prog': p, 'env': env, 'reg': {'k0': 1.0, 'k1': 2.0}} for p in progs]
 
 
-IMPOSSIBLE = ("{| k_prog := []; k_env := mk_env 0 0 0 0 []; k_orig := Some {| o_ops := []; o_duration := 0; o_comps := [] |}; "
-              "k_copy := None; k_nested := Some {| o_ops := []; o_duration := 0; o_comps := [] |}; k_copy_unchanged := false; k_orig_unchanged := false |}")
+IMPOSSIBLE = ("{| k_prog := []; k_env := mk_env 0 0 0 0 []; k_derive := 0; k_orig := Some {| o_ops := []; o_duration := 0; o_comps := [] |}; "
+              "k_copy := None; k_copy_listed := None; k_nested := Some {| o_ops := []; o_duration := 0; o_comps := [] |}; k_copy_unchanged := false; k_orig_unchanged := false |}")
 
 
 def to_coq(c, o):
     if c.get('spec_only'):
         if 'error' in o:
-            return "(KSpecOnly None None None false false)"
-        return (f"(KSpecOnly {c_obs(o.get('orig'))} {c_obs(o.get('copy'))} {c_obs(o.get('nested'))} "
+            return "(KSpecOnly None None None None false false)"
+        return (f"(KSpecOnly {c_obs(o.get('orig'))} {c_obs(o.get('copy'))} {c_obs(o.get('copy_listed'))} {c_obs(o.get('nested'))} "
                 f"{cbool(o.get('copy_unchanged', True))} {cbool(o.get('orig_unchanged', True))})")
     return f"(KCore {to_coq_core(c, o)})"
 
@@ -112,7 +113,8 @@ def to_coq_core(c, o):
         return IMPOSSIBLE
     env, reg_ids = c_env(c)
     prog = c_prog(c['prog'], o['leafinfo'], reg_ids, [0])
-    return (f"{{| k_prog := {prog}; k_env := {env}; k_orig := {c_obs(o.get('orig'))}; k_copy := {c_obs(o.get('copy'))}; "
+    derive = {(): 0, ('mods',): 1, ('flatten',): 2, ('mods', 'flatten'): 3}[tuple(c.get('derive', []))]
+    return (f"{{| k_prog := {prog}; k_env := {env}; k_derive := {derive}; k_orig := {c_obs(o.get('orig'))}; k_copy := {c_obs(o.get('copy'))}; k_copy_listed := {c_obs(o.get('copy_listed'))}; "
             f"k_nested := {c_obs(o.get('nested'))}; k_copy_unchanged := {cbool(o.get('copy_unchanged', True))}; "
             f"k_orig_unchanged := {cbool(o.get('orig_unchanged', True))} |}}")
 
